@@ -46,7 +46,7 @@ func init() {
 		Title: "DISTINCT removes exactly the duplicates; UNION [ALL] concatenates [and dedups]",
 		Rule: "rapid draws tables with heavy duplication (value pools of 2-3 per column), select lists of columns and simple expressions, and " +
 			"either SELECT DISTINCT (oracle: reference first-occurrence sequence; also SELECT DISTINCT * over heterogeneous rows whose key sets differ at equal width, and SELECT DISTINCT over a grouped aggregate-only select list) or a union chain of 2-4 branches (a fifth of the later branches rename their output columns) " +
-			"with any mix of UNION / UNION ALL and an optional trailing LIMIT (oracle: left-associative reference; pure UNION ALL chains compared " +
+			"with any mix of UNION / UNION ALL (two fifths of the chains made of aggregate branches, whole or grouped, with the same textual aggregates) and an optional trailing LIMIT (oracle: left-associative reference; pure UNION ALL chains compared " +
 			"as sequence, others as multiset with the reference's multiplicities; LIMIT: length min(n,|combined|), exact prefix for pure UNION ALL " +
 			"chains, else a sub-multiset of the combined result that is duplicate-free when the last operator is UNION). Non-trivial: >=1 duplicate " +
 			"output row / overlapping branches.",
